@@ -106,7 +106,7 @@ func checkRegister(effs []effect, obs int) keyVerdict {
 //	(1) no acknowledged removal was invoked after r returned,
 //	(2) every acknowledged write invoked after r returned is in obs,
 //	(2') every acknowledged write invoked after a write that is in obs returned is in obs,
-//	(3) no write in obs had returned before r was invoked.
+//	(3) no write in obs had returned before r was invoked — unless some write overlaps r.
 func checkAccumulator(effs []effect, obs map[int]bool) keyVerdict {
 	byId := map[int]effect{}
 	for _, e := range effs {
@@ -137,8 +137,18 @@ func checkAccumulator(effs []effect, obs map[int]bool) keyVerdict {
 				return keyVerdict{Clause: "not-last", Culprit: e}
 			}
 		}
+		// (3) is not judged when some write overlaps r: such a write is a read-modify-write that may
+		// have read the old contributions before r removed them and stored them again with its own
+		// (the reloaded value is then "the value an acknowledged write produced"); whether that
+		// interleaving of a live write and a live removal is acceptable is a question of C09/C11.
+		carried := false
+		for _, w := range effs {
+			if w.Write && w.Call < r.Ret && r.Call < w.Ret {
+				carried = true
+			}
+		}
 		for _, id := range ids {
-			if before(byId[id], r) {
+			if !carried && before(byId[id], r) {
 				return keyVerdict{Clause: "resurrected", Culprit: r, Detail: fmt.Sprintf("contribution #%d (%s) is present after the reload although removal #%d (%s) was acknowledged after it had returned", id, byId[id].Op, r.Id, r.Op)}
 			}
 		}
